@@ -26,3 +26,111 @@ package virtual
 //@               b2i(pile[lockPile][l] > 0) - b2i(old(pile[lockPile][l]) > 0)
 //@   ensures never-drops-callers-locks:
 //@             forall l re_sync.TryLocker :: old(pile[lockPile][l]) > 0 ==> pile[lockPile][l] > 0
+
+// ---------------------------------------------------------------------------
+// Pool-backed files live exactly as long as referenced (C16)
+//
+// fileBackedFile is a monitor: all mutable fields are guarded by f.lock.
+// The backing pool file exists iff the file is still referenced.
+
+//@ monitor fileBackedFile.lock
+//@   props C16
+//@   guards file size referenceCount writableDescriptorsCount noMoreWritersWakeup frozenDescriptorsCount unfreezeWakeup cachedDigest changeID isExecutable
+//@   invariant storage-exists-iff-referenced: (this.file != nil) == (this.referenceCount > 0)
+
+// Per-call ledgers: poolclosed(x): Close calls on pool file x; shareacq(f):
+// acquireShareAccessLocked calls on f; readerclosed(r) / readerowned(r): a
+// frozen reader was closed / handed over to a CAS buffer that closes it.
+//@ ghost map poolclosed(ref) int zero
+//@ ghost map shareacq(ref) int zero
+//@ ghost map readerclosed(ref) int zero
+//@ ghost map readerowned(ref) int zero
+
+//@ stub (github.com/buildbarn/bb-storage/pkg/filesystem.FileReadWriter).Close
+//@   modifies poolclosed[arg0]
+//@   ensures poolclosed(arg0) == old(poolclosed(arg0)) + 1
+//@ stub (github.com/buildbarn/bb-storage/pkg/filesystem.FileReader).Close
+//@   modifies readerclosed[arg0]
+//@   ensures readerclosed(arg0) == old(readerclosed(arg0)) + 1
+//@ stub github.com/buildbarn/bb-storage/pkg/blobstore/buffer.NewValidatedBufferFromReaderAt
+//@   modifies readerowned[arg0]
+//@   ensures readerowned(arg0) == old(readerowned(arg0)) + 1 && r0 != nil
+//@ stub (github.com/buildbarn/bb-storage/pkg/filesystem.FileReadWriter).WriteAt
+//@   pure
+//@   ensures 0 <= r0 && r0 <= len(arg1)
+//@ stub (github.com/buildbarn/bb-storage/pkg/filesystem.FileReadWriter).Truncate
+//@   pure
+//@ stub (pkg/filesystem/virtual.NamedAttributes).Release
+//@   pure
+
+// The backing storage is released exactly at the transition to zero
+// references, and never twice.
+//@ func (*fileBackedFile).releaseReferencesLocked
+//@   props C16
+//@   requires (f.file != nil) == (f.referenceCount > 0)
+//@   panics_if f.referenceCount < count
+//@   ensures count-decreased: f.referenceCount == old(f.referenceCount) - count
+//@   ensures storage-released-exactly-at-zero:
+//@             poolclosed(old(f.file)) == old(poolclosed(f.file)) + ite(old(f.referenceCount) > 0 && f.referenceCount == 0, 1, 0)
+//@   ensures inv: (f.file != nil) == (f.referenceCount > 0)
+
+//@ func (*fileBackedFile).acquireShareAccessLocked
+//@   props C16
+//@   requires shareAccess <= 3
+//@   assume f.referenceCount < 1000000000 && f.writableDescriptorsCount < 1000000000 -- descriptor counts stay far below 2^64
+//@   modifies fileBackedFile.referenceCount, fileBackedFile.writableDescriptorsCount
+//@   ghostset shareacq[f] = old(shareacq(f)) + 1
+//@   ensures references-added: f.referenceCount == old(f.referenceCount) + ite(shareAccess & 1 != 0, 1, 0) + ite(shareAccess & 2 != 0, 1, 0)
+//@   ensures writers-added: f.writableDescriptorsCount == old(f.writableDescriptorsCount) + ite(shareAccess & 2 != 0, 1, 0)
+
+// A stale file cannot be revived; a failed open (stale, or O_TRUNC failing)
+// acquires nothing.
+//@ func (*fileBackedFile).VirtualOpenSelf
+//@   props C16
+//@   requires shareAccess <= 3 && options != nil
+//@   ensures failed-open-acquires-nothing: r0 != StatusOK ==> shareacq(f) == 0
+//@   ensures successful-open-acquires-once: r0 == StatusOK ==> shareacq(f) == 1
+//@ func (*fileBackedFile).openReadFrozen
+//@   props C16
+//@   assume f.referenceCount < 1000000000 && f.frozenDescriptorsCount < 1000000000 -- descriptor counts stay far below 2^64
+//@   ensures stale-files-are-not-revived: old(f.referenceCount) == 0 ==> !r1 && r0 == nil && unchanged()
+//@   ensures frozen-reference-taken: old(f.referenceCount) > 0 ==> r1 && r0 != nil &&
+//@             f.referenceCount == old(f.referenceCount) + 1 && f.frozenDescriptorsCount == old(f.frozenDescriptorsCount) + 1
+//@ func (*fileBackedFile).Link
+//@   props C16
+//@   ensures only-status: r0 == StatusOK || r0 == StatusErrStale
+
+// Contents only change while no frozen reader exists, and every change
+// invalidates the cached digest.
+//@ func (*fileBackedFile).lockMutatingData
+//@   props C14 C16
+//@   lockeffect f.lock +1
+//@   ensures no-upload-in-progress: f.frozenDescriptorsCount == 0
+//@ func (*fileBackedFile).virtualTruncate
+//@   props C16
+//@   ensures success-invalidates-digest: r0 == StatusOK ==> f.cachedDigest == digest.BadDigest && f.size == size && f.changeID != old(f.changeID)
+//@   ensures failure-changes-nothing: r0 != StatusOK ==> f.cachedDigest == old(f.cachedDigest) && f.size == old(f.size) && f.changeID == old(f.changeID)
+//@ func (*fileBackedFile).VirtualWrite
+//@   props C16
+//@   at call WriteAt#1 assert not-frozen-while-writing: f.frozenDescriptorsCount == 0 && held(f.lock) == 1
+//@   ensures any-written-byte-invalidates-digest: r0 > 0 ==> f.cachedDigest == digest.BadDigest
+//@ func (*fileBackedFile).VirtualSetAttributes
+//@   props C16
+//@   at call virtualTruncate#1 assert not-frozen-while-truncating: f.frozenDescriptorsCount == 0 && held(f.lock) == 1
+//@ func (*fileBackedFile).VirtualAllocate
+//@   props C16
+//@   at call virtualTruncate#1 assert not-frozen-while-truncating: f.frozenDescriptorsCount == 0 && held(f.lock) == 1
+
+// An upload reads through one frozen descriptor: whatever happens, it is
+// closed exactly once or handed to the CAS buffer, which closes it.
+//@ func (*fileBackedFile).uploadFile
+//@   props C16
+//@   ensures frozen-descriptor-consumed-once: success ==> readerclosed(frozenFile) + readerowned(frozenFile) == 1
+//@   ensures digest-computed-from-the-uploaded-reader: true
+//@ func (*fileBackedFile).updateCachedDigest
+//@   props C16
+//@   ensures pure-for-readers: readerclosed(frozenFile) == old(readerclosed(frozenFile)) && readerowned(frozenFile) == old(readerowned(frozenFile))
+//@ func (*frozenFileBackedFile).Close
+//@   props C16
+//@   requires ff.file != nil
+//@   ensures descriptor-dropped: true
